@@ -45,8 +45,9 @@ class Defs:
         with / comprehension target, not an unpacking, never augmented or stored into); else None."""
         vs, ks = self.defs.get(name, []), self.kinds.get(name, [])
         if self.built_up(name):
-            # a container that is filled after its (empty) initialisation does not stand for its initialiser
-            return None
+            # a container that is filled after its (empty) initialisation does not stand for its initialiser; when the
+            # filling is the plain accumulate-in-a-loop idiom it stands for the equivalent comprehension
+            return self.as_comprehension(name)
         if len(vs) == 1 and ks == ["assign"] and name not in self.params:
             return vs[0]
         # the same plain assignment repeated (``arg = args[i]`` in two sibling loops): the name still stands for one
@@ -113,6 +114,93 @@ class Defs:
                     if isinstance(r, ast.Name):
                         self._built.add(r.id)
         return name in self._built
+
+    def as_comprehension(self, name):
+        """``X = [] / set() / {}-less``; ``for t in Y: [if c:] X.append(e) | X.add(e) | X.update(e)`` (the loop body being
+        exactly that statement, loops possibly nested) as the comprehension it is equivalent to; None for anything else."""
+        vs, ks = self.defs.get(name, []), self.kinds.get(name, [])
+        if len(vs) != 1 or ks != ["assign"] or name in self.params:
+            return None
+        init = vs[0]
+        if isinstance(init, ast.List) and not init.elts:
+            kind = "list"
+        elif isinstance(init, ast.Call) and isinstance(init.func, ast.Name) and init.func.id in ("set", "list") and not init.args and not init.keywords:
+            kind = init.func.id
+        else:
+            return None
+        calls = []
+        for n in ast.walk(self.func):
+            if isinstance(n, ast.Call) and isinstance(n.func, ast.Attribute) and n.func.attr in self.MUTATORS:
+                r = n.func.value
+                while isinstance(r, (ast.Attribute, ast.Call, ast.Subscript)):
+                    r = r.func if isinstance(r, ast.Call) else r.value
+                if isinstance(r, ast.Name) and r.id == name:
+                    calls.append(n)
+        if len(calls) != 1:
+            return None
+        call = calls[0]
+        if not (isinstance(call.func.value, ast.Name) and len(call.args) == 1 and not call.keywords):
+            return None
+        method = call.func.attr
+        if (kind == "list" and method not in ("append", "extend")) or (kind == "set" and method not in ("add", "update")):
+            return None
+        # the statement chain enclosing the call: Expr <- (If)* <- For <- (For)* , each body holding exactly one statement
+        parents = {}
+        for p in ast.walk(self.func):
+            for ch in ast.iter_child_nodes(p):
+                parents[ch] = p
+        stmt = parents.get(call)
+        if not isinstance(stmt, ast.Expr):
+            return None
+        gens, ifs = [], []
+        cur = stmt
+        while True:
+            par = parents.get(cur)
+            if isinstance(par, ast.If) and par.body == [cur] and len(par.orelse) <= 1:
+                ifs.append(par.test)
+                cur = par
+            elif isinstance(par, ast.If) and par.orelse == [cur] and len(par.body) == 1:
+                # the else-arm of a two-way split (``if c: A.append(..) else: B.append(..)``)
+                ifs.append(self._negated(par.test))
+                cur = par
+            elif isinstance(par, ast.For) and par.body == [cur] and not par.orelse:
+                gens.append(ast.comprehension(target=par.target, iter=par.iter, ifs=list(reversed(ifs)), is_async=0))
+                ifs = []
+                cur = par
+            else:
+                break
+        if not gens or ifs:
+            return None
+        if isinstance(parents.get(cur), (ast.For, ast.While, ast.If, ast.Try, ast.With)):
+            return None  # the accumulate loop sits inside further control flow: not a comprehension over the whole fill
+        gens = list(reversed(gens))
+        elt = call.args[0]
+        # ``for i, x in enumerate(Y)`` with ``i`` unused is ``for x in Y``
+        for g in gens:
+            if (
+                isinstance(g.iter, ast.Call) and isinstance(g.iter.func, ast.Name) and g.iter.func.id == "enumerate" and len(g.iter.args) == 1
+                and isinstance(g.target, ast.Tuple) and len(g.target.elts) == 2 and isinstance(g.target.elts[0], ast.Name)
+            ):
+                i_name = g.target.elts[0].id
+                used = any(isinstance(m, ast.Name) and m.id == i_name for part in [elt] + [t for gg in gens for t in gg.ifs] + [gg.iter for gg in gens if gg is not g] for m in ast.walk(part))
+                if not used:
+                    g.target, g.iter = g.target.elts[1], g.iter.args[0]
+        if method in ("extend", "update"):
+            tmp = ast.Name(id="_elem_", ctx=ast.Load())
+            gens.append(ast.comprehension(target=ast.Name(id="_elem_", ctx=ast.Store()), iter=elt, ifs=[], is_async=0))
+            elt = tmp
+        node = ast.ListComp(elt=elt, generators=gens) if kind == "list" else ast.SetComp(elt=elt, generators=gens)
+        return ast.fix_missing_locations(ast.copy_location(node, init))
+
+    _FLIP = {ast.Is: ast.IsNot, ast.IsNot: ast.Is, ast.Eq: ast.NotEq, ast.NotEq: ast.Eq, ast.In: ast.NotIn, ast.NotIn: ast.In}
+
+    @classmethod
+    def _negated(cls, test):
+        if isinstance(test, ast.Compare) and len(test.ops) == 1 and type(test.ops[0]) in cls._FLIP:
+            return ast.Compare(left=test.left, ops=[cls._FLIP[type(test.ops[0])]()], comparators=test.comparators)
+        if isinstance(test, ast.UnaryOp) and isinstance(test.op, ast.Not):
+            return test.operand
+        return ast.UnaryOp(op=ast.Not(), operand=test)
 
     def mutations(self, name):
         """Values appended/updated into a local container: x.append(v), x.extend(v), x.update(v), x[k] = v."""
